@@ -120,6 +120,21 @@ CHECKS = {
              "plain run), plus silence templates (a function guard activated at invocation k silences invocations k+1..).",
         note="As C01. Silence (no delivery while a guard is active) is decided by the templates, not by a theorem.",
         ref="DESIGN.md section 7 C10"),
+    "C11": dict(
+        technique="Coq proofs over a model whose every boolean decision is regenerated from predicate.py / tracer.py / ast_rewriter.py (meaning of conditions, any/all, exact invocation set, local guards; refutation witnesses for the recorded findings) + in-coqc correspondence with the real predicate objects and real tracers + reference-stream oracle on generated programs",
+        text="C11_condition_meaning (p(node) is the boolean meaning; dynamic_call is True for wholly static conditions and the meaning otherwise), C11_any / C11_all (the classmethods "
+             "with their coalescing are the disjunction / conjunction of the parts), C11_invoked_char (a handler runs at a node iff some handler of the event accepts the node and "
+             "its own condition is wholly static or holds), hence C11_exact_partial (exact for every condition with a dynamic part, whatever else is registered), C11_exact_sole (exact "
+             "for any condition when alone on its event), C11_no_miss, C11_guard_partial (skipped, and the pristine expression evaluated, exactly while the guard is set, when the "
+             "site's guarded handlers name one guard) are Qed-closed for every predicate structure, handler list, truth assignment and guard state. C11_exact_refuted, "
+             "C11_guard_refuted and C11_any_empty_refuted are the witnesses of the three recorded findings. gen/PredGen.v is regenerated on every run, so the proofs are re-checked "
+             "against the current sources; model/Pred.v is tied to the code by 300 predicate structures evaluated by the real predicate.py and 150 arrangements of real tracers "
+             "(conditions + local guards) compared with the model in coqc; the oracle compares, on 120 generated programs, the occurrences every conditional handler saw with "
+             "the reference stream filtered by the condition evaluated on the plain AST, including the suite's set-the-guard-at-first-load scenario.",
+        note="Trusted: Coq kernel + vm_compute; translator gen_pred.py; hand-written recursion and site/delivery/guard composition of model/Pred.v (validated by the two "
+             "correspondences); ref_instr.py as definition of occurrences. The theorems are 'at one node': that an occurrence of the node reaches emit_event exactly when a site "
+             "exists is C02's business.",
+        ref="DESIGN.md section 7 C11"),
     "C14": dict(
         technique="Coq proof (fold invariant over the two Counters of fix_positions, any number of specs/occurrences) with refutation witnesses + in-coqc correspondence of both functions + placement-record oracle",
         text="C14_cols_partial: for every number of specs with arbitrary length changes, every application order and every multiset of occurrences on a "
